@@ -60,6 +60,8 @@ def w_pipeline(job):
         from checks.configx import rich_tables
         L, R, lvals, rvals = rich_tables(job['gen']['variant'])
         keep = [i for i, v in enumerate(lvals) if not isna(v)], [j for j, v in enumerate(rvals) if not isna(v)]
+        if job.get('am'):       # both routes with allow_missing=True: rows with a missing value stay in
+            keep = list(range(len(lvals))), list(range(len(rvals)))
         L = L.iloc[keep[0]].rename(columns={'x_id': 'id'})
         R = R.iloc[keep[1]].rename(columns={'y_id': 'id', 't': 's'})
         lvals, rvals = [lvals[i] for i in keep[0]], [rvals[j] for j in keep[1]]
@@ -69,16 +71,17 @@ def w_pipeline(job):
         L = mkframe(lvals, pres, prefix='l')
         R = mkframe(rvals, pres, prefix='r')
     tok = make_tokenizer(spec)
-    J = call_join(meas, L, R, tok, t, op, job.get('ae', True), n_jobs=nj1)
+    am = bool(job.get('am'))
+    J = call_join(meas, L, R, tok, t, op, job.get('ae', True), am=am, n_jobs=nj1)
     fmeas = 'OVERLAP' if meas in ('OVERLAP', 'OVERLAP_COEFFICIENT') else meas
     ft = t if meas != 'OVERLAP_COEFFICIENT' else 1
     # the filters are specified for set-returning tokenizers (C04/C06); a bag-mode spec is given to the
     # join only, which coerces it, and the two pipeline stages get the set-mode tokenizer of the same kind
     sspec = list(spec[:-1]) + [True]
-    f = make_filter(fname, make_tokenizer(sspec), fmeas, 1 if fname == 'Overlap' else ft, op='>=')
+    f = make_filter(fname, make_tokenizer(sspec), fmeas, 1 if fname == 'Overlap' else ft, am=am, op='>=')
     C = call_filter_tables(f, L, R, n_jobs=nj1, score=False if fname == 'Overlap' else None)
     M = lib(ssj.apply_matcher, C, 'l_id', 'r_id', L, R, 'id', 'id', 's', 's', make_tokenizer(sspec),
-            sim_function(meas), t, op, False, None, None, 'l_', 'r_', True, nj2, False)
+            sim_function(meas), t, op, am, None, None, 'l_', 'r_', True, nj2, False)
     jd, jdup = keyed(J)
     md, mdup = keyed(M)
     lm, rm = masks_for(lvals, rvals, spec)
@@ -89,6 +92,18 @@ def w_pipeline(job):
     for key in set(jd) | set(md):
         i, j = lpos[key[0]], rpos[key[1]]
         a, b = lm[i], rm[j]
+        if a is None or b is None:      # a missing side (only with allow_missing): both routes must list the pair
+            compared += 1
+            if (key in jd) != (key in md):
+                nviol += 1
+                if len(viol) < MAXV:
+                    viol.append({'key': 'C07|missing|%s|%r|%s|%s|%r|%r' % (meas, t, op, fname, lvals[i], rvals[j]),
+                                 'what': 'C07 with allow_missing=True: %s join(t=%r, op=%s) %s the pair left=%r right=%r, '
+                                         '%sFilter.filter_tables;apply_matcher %s it' % (
+                                             meas, t, op, 'lists' if key in jd else 'does not list', lvals[i], rvals[j],
+                                             fname, 'lists' if key in md else 'does not list'),
+                                 'detail': {}})
+            continue
         if a == 0 and b == 0:
             excluded += 1
             continue
@@ -215,6 +230,10 @@ def layers(tier):
                         for spec in (['ws', True], ['ws', False]):
                             jobs.append({'gen': {'gen': 'rich', 'variant': variant}, 'meas': meas, 't': t, 'op': op,
                                          'filter': fname, 'nj': (1, 1) if spec[1] else (3, 2), 'tok': spec, 'pres': pres})
+                    # both routes with allow_missing=True (also where no regular pair qualifies: '>' at the top score)
+                    for ae in ((True, False) if meas != 'OVERLAP' else (True,)):
+                        jobs.append({'gen': {'gen': 'rich', 'variant': variant}, 'meas': meas, 't': t, 'op': op, 'am': True,
+                                     'ae': ae, 'filter': fnames[(len(jobs)) % len(fnames)], 'nj': (1, 2), 'pres': pres})
     Ls = [Layer('univ', 'checks.c07:w_pipeline', jobs,
                 'UNIV(%d) x 5 measures x TH_att u k/10 x op x first-stage filter in {Size,Prefix,Position,'
                 'Overlap>=1} x n_jobs of both stages; bag tokenizer with repeated tokens on skewed universes; '
